@@ -377,7 +377,10 @@ pub fn run_case(case: &Case, rep: &mut Report) -> Vec<(String, String)> {
             let src = sc.path("src");
             shim::passthrough(|| std::fs::write(&src, b"new").unwrap());
             let before = world::snapshot(&dir);
-            let cache = kismet_cache::sharded::Cache::new(root.clone(), nshards, cap * nshards);
+            // (every other case with a total the shard count does not divide: the per-directory capacity is the
+            // rounded-up quotient, here again `cap`)
+            let total = if case.types.len() % 2 == 0 { cap * nshards } else { (cap * nshards - (nshards - 1)).max(1) };
+            let cache = kismet_cache::sharded::Cache::new(root.clone(), nshards, total);
             let (r, trace) = run::as_participant(0, 0, || {
                 run::trigger_fire_next(u64::MAX);
                 run::shard_draws(&[], Some(0));
